@@ -409,7 +409,7 @@ static void run_probe(void)
             if (d > 0) { succeeded++; liberasurecode_instance_destroy(d); } else failed++;
         }
         atomic_store(&pr_stop, 1); pthread_join(th, NULL);
-        mon_count("evaluations", atomic_load(&pr_calls)); mon_count("probe_calls_on_unissued_descriptors", atomic_load(&pr_calls)); mon_count("creates_failing_in_backend_init", failed);
+        mon_count("evaluations", failed); mon_count("probe_calls_on_unissued_descriptors", atomic_load(&pr_calls));       /* one evaluation per failing create that was probed, not per probing call */ mon_count("creates_failing_in_backend_init", failed);
         if (succeeded) mon_logf("HARNESS probe mode: %ld creates meant to fail succeeded", succeeded);
         else if (atomic_load(&pr_accepted)) mon_viol("C18", "unissued-descriptor-accepted", "%ld of %ld calls through descriptor numbers that no create had returned were accepted while creates were failing in the backend's init", atomic_load(&pr_accepted), atomic_load(&pr_calls));
         mon_distinct("nontrivial", mon_hash_u64((uint64_t)round, 0x1866));
